@@ -661,6 +661,29 @@ func runC03(c *config) {
 	decl := ir.NewModule()
 	decl.NewGlobal("g", types.I32)
 	c03Check(c, decl, map[string]interface{}{"program": "m.NewGlobal(\"g\", i32)"}, "global_decl_no_linkage", false)
+	// address spaces can only be given by assigning the field after the constructor: the typed uses must follow
+	for variant := 0; variant < 3; variant++ {
+		m := ir.NewModule()
+		g := m.NewGlobalDef("g", constant.NewInt(types.I32, 1))
+		callee := m.NewFunc("callee", types.Void)
+		f := m.NewFunc("f", types.I32)
+		b := f.NewBlock("entry")
+		a := b.NewAlloca(types.I32)
+		switch variant {
+		case 0:
+			g.AddrSpace = 2
+		case 1:
+			a.AddrSpace = 1
+		default:
+			callee.AddrSpace = 3
+		}
+		b.NewStore(constant.NewInt(types.I32, 4), a)
+		x := b.NewLoad(types.I32, g)
+		y := b.NewLoad(types.I32, a)
+		b.NewCall(callee)
+		b.NewRet(b.NewAdd(x, y))
+		c03Check(c, m, map[string]interface{}{"program": fmt.Sprintf("address space assigned after the constructor, variant %d (0 global, 1 alloca, 2 function)", variant)}, "", false)
+	}
 }
 
 func c03Module(r *rng, i int) *ir.Module {
